@@ -52,6 +52,16 @@ type opCtx struct {
 	parent    *opCtx  // the context this one is merged into (goroutines the library started)
 }
 
+// top is the context of the operation itself (contexts of library goroutines are linked to it).
+//
+//go:norace
+func (o *opCtx) top() *opCtx {
+	for o.parent != nil {
+		o = o.parent
+	}
+	return o
+}
+
 func newOpCtx(failAt int) *opCtx {
 	return &opCtx{failAt: failAt, failErr: injected[0], trace: 1469598103934665603}
 }
@@ -95,9 +105,20 @@ func runBubble(t *testing.T, f func(t *testing.T)) {
 		synctest.Test(t, f)
 	})
 	if pv != nil {
+		// goroutines the library started and never ended stay parked when the run is over; the
+		// bubble reports them as a deadlock once its main goroutine has returned
+		if n := abandonedInRun + int(libGoroutinesLoose.Load()); n > 0 && strings.Contains(fmt.Sprint(pv), "blocked goroutines remain") {
+			if statsOfRun != nil {
+				statsOfRun.probeN("library-goroutines-outlived-the-run", n)
+			}
+			return
+		}
 		panic(pv) // re-raised in the caller, which turns it into infrastructure trouble
 	}
 }
+
+// statsOfRun: the statistics of the run that is executing or has just executed.
+var statsOfRun *Stats
 
 // yieldHook is what instrumented library code calls before touching process-wide state.
 func yieldHook(site int) {
@@ -133,6 +154,8 @@ func setRun(r *runCtx) {
 	if r != nil {
 		r.baseG, r.rootGoid = runtime.NumGoroutine(), curGoid()
 		abandonedInRun = 0
+		libGoroutinesLoose.Store(0)
+		statsOfRun = r.stats
 	}
 	theRun = r
 }
@@ -252,11 +275,21 @@ func (r *runCtx) helperDone(t *task) {
 // Hooks of the instrumented build for goroutines and blocking operations of the library.
 func goHook(fn func()) bool {
 	r := theRunNoRace()
-	if r == nil || r.sc == nil {
+	if r == nil {
 		return false
 	}
-	return r.sc.spawnHelper(fn)
+	if r.sc == nil || !r.sc.spawnHelper(fn) {
+		// started by the root outside a scheduler (or by a goroutine that is itself not driven):
+		// it runs for real inside the run's bubble
+		libGoroutinesLoose.Add(1)
+		return false
+	}
+	return true
 }
+
+// libGoroutinesLoose counts goroutines the library started in the current run that the scheduler
+// did not take over.
+var libGoroutinesLoose atomic.Int32
 
 func blockHook() any {
 	r := theRunNoRace()
@@ -358,8 +391,8 @@ func (r *runCtx) detach(sc *sched) {
 // bubblePanic turns a panic that escaped a bubble into an infrastructure message - except the
 // one the bubble raises when goroutines the library never ended are left parked in it.
 func bubblePanic(p any, st *Stats) string {
-	if abandonedInRun > 0 && strings.Contains(fmt.Sprint(p), "blocked goroutines remain") {
-		st.probeN("library-goroutines-outlived-the-run", abandonedInRun)
+	if n := abandonedInRun + int(libGoroutinesLoose.Load()); n > 0 && strings.Contains(fmt.Sprint(p), "blocked goroutines remain") {
+		st.probeN("library-goroutines-outlived-the-run", n)
 		return ""
 	}
 	return fmt.Sprintf("bubble panic: %v", p)
